@@ -24,7 +24,7 @@ where
     T: serde::de::DeserializeOwned + 'a,
 {
     let f = File::open(filepath.as_ref())?;
-    let r: Box<dyn io::Read> = if fs_utils::is_gzip(filepath) {
+    let r: Box<dyn io::Read> = if fs_utils::is_gzip(filepath.as_ref()) {
         Box::new(BufReader::new(MultiGzDecoder::new(f)))
     } else {
         Box::new(f)
@@ -37,7 +37,16 @@ where
         // the deserializing iterator reads the header row itself and discards the error of
         // that read, after which a failed reader (such as the decoder of a gzip file cut
         // short) looks like a file without records. read the header row here instead.
-        csv_reader.headers()?;
+        if csv_reader.headers()?.is_empty() {
+            // a file without a header row has no content at all
+            return Err(io::Error::new(
+                io::ErrorKind::InvalidData,
+                format!(
+                    "file {} is empty, expected a header row",
+                    filepath.as_ref().to_string_lossy()
+                ),
+            ));
+        }
     }
     let reader = csv_reader
         .into_deserialize::<T>()
